@@ -450,6 +450,21 @@ def norm_obs(obs, ce, rm):
     return "E:%s:%d:%s" % (c["name"], v["code"], (v["cstr"] if c["string_fn"] else "-").replace(" ", "_"))
 
 
+def sendcopy_wrong_enum(rust_obs, c_obs, ce):
+    """rust_obs = E:iox2_send_error_e:<k>:loan_error_<x> ; c_obs = E:iox2_send_error_e:<j>:<...> where j is the
+    discriminant of the loan error <x> in iox2_loan_error_e"""
+    m = re.match(r"^E:iox2_send_error_e:\d+:loan_error_(.*)$", rust_obs)
+    n = re.match(r"^E:iox2_send_error_e:(\d+):", c_obs)
+    if not m or not n:
+        return False
+    want = {"exceeds_max_loans": "EXCEEDS_MAX_LOANED_SAMPLES", "out_of_memory": "OUT_OF_MEMORY",
+            "exceeds_max_loan_size": "EXCEEDS_MAX_LOAN_SIZE", "internal_failure": "INTERNAL_FAILURE"}.get(m.group(1))
+    for v in ce.get("iox2_loan_error_e", {}).get("variants", []):
+        if v["name"] == want and v["code"] == int(n.group(1)):
+            return True
+    return False
+
+
 def parse_streams(out, ce, rm):
     cases = []
     cur = None
@@ -496,6 +511,7 @@ def part_b(ctx, tab):
         return kind, argv, rc, out
 
     stats = {"cases": 0, "mode_runs": 0, "ops": 0, "mismatches": 0, "left_behind": 0}
+    wrong_enum = collections.Counter()
     opdist = collections.Counter()
     errdist = collections.Counter()
     modes_seen = collections.Counter()
@@ -527,6 +543,12 @@ def part_b(ctx, tab):
                         continue
                     a = [(x, y) for x, y, _ in ref]
                     b = [(x, y) for x, y, _ in ls]
+                    # known class: iox2_publisher_send_copy / send_slice_copy return the code of
+                    # iox2_loan_error_e where iox2_send_error_e is documented (state afterwards equal)
+                    for i, (p_, q_) in enumerate(zip(a, b)):
+                        if p_ != q_ and p_[0] == q_[0] and p_[0].startswith("sendcopy") and sendcopy_wrong_enum(p_[1], q_[1], ce):
+                            wrong_enum[(p_[1], q_[1])] += 1
+                            b[i] = p_
                     if a != b:
                         stats["mismatches"] += 1
                         idx = next((i for i, (p, q) in enumerate(zip(a, b)) if p != q), min(len(a), len(b)))
@@ -546,13 +568,25 @@ def part_b(ctx, tab):
                                           {"case": c["hdr"], "mode": m, "leftover": f,
                                            "stream": ["%s = %s" % (x, z) for x, _, z in c["modes"].get(m, [])],
                                            "how_to_rerun": " ".join(argv)})
+    if wrong_enum:
+        ctx.violation("iox2_publisher_send_copy / iox2_publisher_send_slice_copy return a code of iox2_loan_error_e although iox2_send_error_e is documented: "
+                      "a failed loan is reported to the C caller as another error: %s" % (
+                          ["Rust %s -> C caller reads %s" % (k[0], k[1]) for k in sorted(wrong_enum)]),
+                      {"kind": "wrong C enum", "where": "iceoryx2-ffi/c/src/api/publisher.rs send_copy()/send_slice_copy(): `Err(e) => return e.into_c_int()` with e: LoanError",
+                       "occurrences": {"%s / %s" % k: v for k, v in wrong_enum.items()},
+                       "how_to_rerun": "%s pubsub %d 0 1 400 60   # look for sendcopy ops" % (exe, ctx.seed)},
+                      key="ffi-wrong-enum:iox2_publisher_send_copy")
     ctx.cov["part_b"] = {
         "what": "translation validation: every generated program executed once per mode; streams compared line by line against mode RR",
         "stats": stats, "modes": dict(modes_seen), "op_distribution": dict(opdist), "error_kinds_seen": dict(errdist),
         "covered": "publish-subscribe: loan/write/send/drop-loan/receive/release/has_samples/update_connections/port+sample drops in generated order, "
                    "payload type details %s fixed and dynamic (slice) with arbitrary size/alignment, ipc and local services, 1 publisher, 1-2 subscribers; "
-                   "event: notify/notify_with_custom_event_id/try_wait, 1-2 notifiers, 1-2 listeners; handle release: node listing + re-create of the service after all drops",
-        "not_covered": "request-response, blackboard, waitset, attributes, user headers other than (), history>0, several publishers, blocking waits, "
+                   "send_copy/send_slice_copy, user header type details (size/alignment varied) written and read back, history 0-2 with late-joining subscribers and history_request, "
+                   "up to 3 publishers and 4 subscribers (service limits 2 and 3, so creation failures occur), refused subscriber buffer sizes, "
+                   "open/create of the same service with deviating requirements (9 kinds: incompatible types, min buffer, publishers, subscribers, borrowed samples, overflow, not existing, already exists, plain open); "
+                   "event: notify/notify_with_custom_event_id/try_wait, 1-2 notifiers, 1-2 listeners, extra ports beyond the limits, 6 kinds of deviating open/create; "
+                   "handle release: port counts after every drop, node listing + re-create of the service after all drops",
+        "not_covered": "request-response, blackboard, waitset, attributes, blocking/timed waits, deadlines, resizable (dynamic allocation strategy) segments, "
                        "cross-process participants (both sides live in one process), C++/Python bindings",
         "samples": samples,
     }
